@@ -777,8 +777,6 @@ class Builder:
         exit_label = self._label_mgr.new_label(start_with="IF_EXIT")
         if_start: List[ICmd] = []
 
-        using_new_temp_reg = False
-
         cmds, cond_operand = self._get_condition_operand(op)
         if_start.extend(cmds)
 
@@ -788,7 +786,8 @@ class Builder:
         )
         if_start.append(branch)
 
-        if using_new_temp_reg:
+        # Inactivate the temporary register
+        if isinstance(op, Future):
             assert isinstance(cond_operand, operand.Register)
             self._mem_mgr.remove_active_register(cond_operand)
 
@@ -862,6 +861,8 @@ class Builder:
 
         # if self._mem_mgr.is_register_active(loop_register):
         #     raise ValueError("Register used for looping should not already be active")
+        if activate and not self._mem_mgr.is_register_active(loop_register):
+            self._mem_mgr.add_active_register(loop_register)
         return loop_register
 
     def _loop_get_entry_commands(
@@ -939,6 +940,10 @@ class Builder:
             )
             if_start.append(branch)
             commands = if_start
+
+            # Inactivate the temporary registers
+            for reg in temp_regs_to_remove:
+                self._mem_mgr.remove_active_register(reg)
         else:
             assert False, "not supported"
         return commands  # type: ignore
@@ -1043,6 +1048,7 @@ class Builder:
             context=context,
             loop_register=loop_register,
         )
+        self._mem_mgr.remove_active_register(loop_register)
 
     def _build_cmds_breakpoint(
         self, action: BreakpointAction, role: BreakpointRole = BreakpointRole.CREATE
